@@ -1751,7 +1751,8 @@ fn is_option_named(prop: &PropOrSpread, name: &str) -> bool {
         PropName::Ident(ident) => ident.sym == name,
         PropName::Str(str) => str.value == name,
         PropName::Computed(ComputedPropName { expr, .. }) => {
-            matches!(&**expr, Expr::Lit(Lit::Str(str)) if str.value == name)
+            // (`[("name")]`: the printer drops the parentheses)
+            matches!(expr.unwrap_parens(), Expr::Lit(Lit::Str(str)) if str.value == name)
         }
         PropName::Num(..) | PropName::BigInt(..) => false,
     }
